@@ -4,6 +4,7 @@
    proved here; what is proved holds for EVERY handler `rec` interpreting the `_parse` calls (plain, packrat, ...). *)
 From Coq Require Import List ZArith NArith Bool String.
 From PP Require Import Model.Str Model.Results Model.Prog Model.Core Model.Entry Proofs.ScanProofs Gen.GenEntry.
+From PP Require Import Model.Transform Proofs.TransformProofs.
 Import ListNotations.
 
 (* the derived entry points are defined in the source as the model defines them (regenerated every run) *)
@@ -72,3 +73,21 @@ Qed.
 Example C08_split_instance :
   rejoin [97; 44; 98]%N (split_pieces [97; 44; 98]%N [(pr_empty, 1, 2)] 0) [(pr_empty, 1, 2)] = [97; 44; 98]%N.
 Proof. reflexivity. Qed.
+
+(* ---- transform_string (Model/Transform.v: the loop of pyparsing/core.py over scan_string's match list, keepTabs forced on) *)
+(* unmatched text is kept verbatim and every match is replaced by str() of all its (flattened) tokens - for every input and
+   every match list in which no token is one of the falsy non-strings 0 / False / None (empty strings and empty lists, which the
+   same filter drops, print as nothing anyway) *)
+Theorem C08_transform : forall orig ms,
+  forallb (fun m => forallb (fun t => negb (lossy t)) (toks (fst (fst m)))) ms = true ->
+  transform orig ms = transform_ref orig ms 0.
+Proof. intros orig ms H. exact (transform_spec orig ms 0 H). Qed.
+
+Theorem C08_transform_no_match : forall orig, transform orig [] = orig.
+Proof. exact transform_no_match. Qed.
+
+(* without that hypothesis the statement is false: `out = [o for o in out if o]` also drops the token 0 (finding F-08c) *)
+Theorem C08_transform_falsy_refuted : exists orig ms,
+  transform orig ms <> transform_ref orig ms 0 /\
+  transform orig ms = [120%N; 121%N] /\ transform_ref orig ms 0 = [120%N; 48%N; 121%N].
+Proof. exact transform_falsy_refuted. Qed.
